@@ -2450,6 +2450,74 @@ fn run_validate(case: &Value) -> Value {
     json!({"status": "ok", "model_input": model_in, "obs": obs, "detail": detail})
 }
 
+
+// ---------------------------------------------------------------------------
+// serde kind (C14): write -> read (with the locked formatting self-check) -> write
+
+fn store_json(s: &Store) -> Value {
+    json!({
+        "config": serde_json::to_value(&s.config).unwrap_or(Value::Null),
+        "audits": serde_json::to_value(&s.audits).unwrap_or(Value::Null),
+        "imports": serde_json::to_value(&s.imports).unwrap_or(Value::Null),
+    })
+}
+
+fn run_serde(case: &Value) -> Value {
+    let st = &case["store"];
+    let s0 = match Store::mock_acquire(
+        st["config"].as_str().unwrap(),
+        st["audits"].as_str().unwrap(),
+        st["imports"].as_str().unwrap(),
+        mock_today(),
+        false,
+    ) {
+        Ok(s) => s,
+        Err(e) => {
+            let e = format!("{e:?}");
+            return json!({"status": "refused", "error_kind": error_kind(&e), "error": e.chars().take(400).collect::<String>()});
+        }
+    };
+    let t1 = s0.mock_commit();
+    let r1 = Store::mock_acquire(&t1["config.toml"], &t1["audits.toml"], &t1["imports.lock"], mock_today(), true);
+    let (reload, values_equal, bytes_equal, t2) = match &r1 {
+        Err(e) => {
+            let d = format!("{e:?}");
+            let mut kinds = Vec::new();
+            for k in ["InvalidCriteria", "BadWildcardEndDate", "BadFormat", "ImportsLockOutdated", "Toml"] {
+                if d.contains(k) {
+                    kinds.push(k);
+                }
+            }
+            (format!("refused {}", kinds.join(" ")), false, false, None)
+        }
+        Ok(s1) => {
+            let t2 = s1.mock_commit();
+            ("ok".to_owned(), store_json(&s0) == store_json(s1), t1 == t2, Some(t2))
+        }
+    };
+    // the formatting self-check alone (ignoring lock freshness): re-read without the check and
+    // compare the bytes a second write produces
+    let r1b = Store::mock_acquire(&t1["config.toml"], &t1["audits.toml"], &t1["imports.lock"], mock_today(), false);
+    let (parse_back, values_equal_b, bytes_equal_b) = match &r1b {
+        Err(e) => (format!("refused {}", error_kind(&format!("{e:?}"))), false, false),
+        Ok(s1) => ("ok".to_owned(), store_json(&s0) == store_json(s1), s1.mock_commit() == t1),
+    };
+    let obs = sp(
+        "serde",
+        vec![
+            sp("locked_reload", vec![reload.replace(' ', "_")]),
+            sp("values_equal", vec![sb(values_equal)]),
+            sp("bytes_equal", vec![sb(bytes_equal)]),
+            sp("parse_back", vec![parse_back.replace(' ', "_")]),
+            sp("values_equal_unchecked", vec![sb(values_equal_b)]),
+            sp("bytes_equal_unchecked", vec![sb(bytes_equal_b)]),
+        ],
+    );
+    let _ = t2;
+    json!({"status": "ok", "obs": obs, "written": {"config": t1["config.toml"], "audits": t1["audits.toml"], "imports": t1["imports.lock"]},
+           "values": store_json(&s0)})
+}
+
 fn panic_message(p: &Box<dyn std::any::Any + Send>) -> String {
     if let Some(s) = p.downcast_ref::<String>() {
         s.clone()
@@ -2472,6 +2540,7 @@ fn run_case(case: &Value) -> Value {
         "aggregate" => run_aggregate(case),
         "suggest" => run_suggest(case),
         "validate" => run_validate(case),
+        "serde" => run_serde(case),
         other => json!({"status": "harness_error", "error": format!("unknown kind {other}")}),
     }));
     let mut v = match r {
